@@ -6,7 +6,7 @@
 (* sources with timing strings (incl. negative BPMs / stops, the FREEZES alias),  *)
 (* an SSC-only key already present, 0..2 charts.  Templates: a small custom one.   *)
 EXTENDS Convert, Json, TLC
-CONSTANTS Dir, MaxItems, MaxChartItems, SimKeys, ChartKeys, ValCodes, BehKinds, DoEmit
+CONSTANTS Dir, MaxItems, MaxChartItems, SimKeys, ChartKeys, ValCodes, BehKinds, DoEmit, NotesLast
 VARIABLES items, citems, beh, ncharts
 vars == <<items, citems, beh, ncharts>>
 
@@ -22,6 +22,8 @@ Val(k, c) == CASE c = "empty" -> <<>>
                [] c = "padded" -> <<SP>> \o DefaultValue(k) \o <<LF>>
                [] c = "other" -> <<120>>
                [] c = "warps" -> <<52, 61, 50>>          \* 4=2
+               [] c = "stopzero" -> <<52, 61, 48, 46, 48, 48, 48>>     \* 4=0.000 : zero is not negative
+               [] c = "none" -> None                                    \* a key-only property
                [] c = "bpm" -> T("bpm") [] c = "bpmneg" -> T("bpmneg") [] c = "stop" -> T("stop") [] c = "stopneg" -> T("stopneg")
 ItemsOf(seq) == [i \in DOMAIN seq |-> [k |-> seq[i].k, v |-> Val(seq[i].k, seq[i].c)]]
 
@@ -42,7 +44,7 @@ Spec == Init /\ [][Next]_vars
 Fields6 == <<[k |-> "STEPSTYPE", v |-> <<100>>], [k |-> "DESCRIPTION", v |-> <<>>], [k |-> "DIFFICULTY", v |-> <<69>>],
              [k |-> "METER", v |-> <<53>>], [k |-> "RADARVALUES", v |-> <<>>]>>
 NotesItem == [k |-> "NOTES", v |-> T("n")]
-SrcChart == Fields6 \o ItemsOf(citems) \o <<NotesItem>>
+SrcChart == IF NotesLast THEN Fields6 \o ItemsOf(citems) \o <<NotesItem>> ELSE Fields6 \o <<NotesItem>> \o ItemsOf(citems)
 Src == [items |-> <<[k |-> "TITLE", v |-> T("x")]>> \o ItemsOf(items), charts |-> [j \in 1..ncharts |-> SrcChart]]
 (* custom templates: a property the source also has, an SSC-only property, an existing chart *)
 BlankSMChart == [i \in 1..6 |-> [k |-> SMFields[i], v |-> <<>>]]
